@@ -20,7 +20,7 @@
          REFUTED in general (21)-(24) with witnesses that hold for every
          correct libm.                                                       *)
 From FendV Require Import Base.Prelude Elem.Bridge Elem.Model Elem.ModelProofs
-  Elem.BridgeProofs Elem.TrigReals Elem.PointDefs Elem.Accuracy.
+  Elem.BridgeProofs Elem.RootProofs Elem.TrigReals Elem.PointDefs Elem.Accuracy.
 From Coq Require Import QArith Qabs Qreals Reals.
 Open Scope R_scope.
 
@@ -200,6 +200,28 @@ Theorem C15_pow_irrational_exponent_refuted :
 Proof. exact pow_two_pi_rejected. Qed.
 Print Assumptions C15_pow_irrational_exponent_refuted.
 
+(* ------------------------------------------------------------- (13b) *)
+(* non-rational powers x^(p/q) are computed exactly: BigUint::root_n returns
+   the floor of the root with a correct exact flag (partial correctness: for
+   whatever it returns), and the 50 halvings of BigRat::iter_root_n end on
+   the midpoint of a bracket of width 2^-50 that contains the n-th root of
+   val -- for every val, every index n and every starting floor *)
+Theorem C15_integer_root_sound : forall x n r b,
+  biguint_root_n x n = Ok (r, b) ->
+  (b = true /\ (r ^ n = x \/ n = 1 \/ x <= 1))%N \/
+  (b = false /\ r ^ n < x /\ x < (r + 1) ^ n)%N.
+Proof. exact biguint_root_n_sound. Qed.
+Print Assumptions C15_integer_root_sound.
+
+Theorem C15_root_bisection_bracket : forall low val n,
+  (Qpower low (Z.of_N n) <= val)%Q -> (val <= Qpower (low + 1) (Z.of_N n))%Q ->
+  exists lo hi : Q,
+    (Qpower lo (Z.of_N n) <= val)%Q /\ (val <= Qpower hi (Z.of_N n))%Q /\
+    (hi - lo == 1 # 1125899906842624)%Q /\
+    (iter_root_n low val n == (lo + hi) / 2)%Q.
+Proof. exact iter_root_n_bracket. Qed.
+Print Assumptions C15_root_bisection_bracket.
+
 (* --------------------------------------------------------------- (14) *)
 (* BigRat::from_f64 on a finite value of magnitude below 2^64: absolute error
    at most 2^-64 *)
@@ -329,6 +351,10 @@ Proof. repeat split; reflexivity. Qed.
 Example C15_cos_special_inhabited :
   (Z.abs (-2 + 3) < 2 ^ 64)%Z /\ good_residue (Z.abs_N (-2 + 3)) = true.
 Proof. split; reflexivity. Qed.
+
+Example C15_root_bisection_inhabited :      (* sqrt 2 from the floor 1 *)
+  (Qpower 1 (Z.of_N 2) <= 2)%Q /\ (2 <= Qpower (1 + 1) (Z.of_N 2))%Q.
+Proof. split; discriminate. Qed.
 
 Example C15_from_f64_error_inhabited :
   fl_saturates (FFin true 6004799503160661 (-54)) = false.      (* -1/3 *)
